@@ -13,9 +13,9 @@ package main
 //               timers of all idle conns fired)  DL (wait until the I/O deadline of every blocked
 //               read expired)  CL (transport.Close)
 //           idle/resp: IdleTimeout / response deadline in ms (0: 30 s / 5 s, i.e. never in a history)
-//   result: x=<M<mark>|E|C>,... dials=<n> idle=<n> conns=<n> maxout=<n> dirty=<0|1>
+//   result: x=<M<mark>|E|C|X>,... dials=<n> idle=<n> conns=<n> maxout=<n> dirty=<0|1>
 //           M<mark>: returned message carries <mark> (suffix /BADID when the header id is not the
-//           caller's); E error; C context.Canceled.  dials = connections the server accepted;
+//           caller's); E error; C context.Canceled; X = E or C of an exchange started with SC.  dials = connections the server accepted;
 //           idle/conns = sizes of idleConns / conns (hook); maxout = max queries owed at once on one
 //           connection as seen by the server; dirty = a query arrived on a half-replied connection.
 //
@@ -570,7 +570,13 @@ func c06Replay(f map[string]string, evs []string, scale int) (string, bool) {
 	var xs []string
 	for _, x := range exs {
 		if x.returned() {
-			xs = append(xs, x.res)
+			r := x.res
+			// an exchange started with a dead ctx on a connection that fails at once may see the
+			// worker's error before its select looks at ctx.Done (both arms ready: Go picks at random)
+			if x.sc && (r == "C" || r == "E") {
+				r = "X"
+			}
+			xs = append(xs, r)
 		} else {
 			xs = append(xs, "P")
 		}
